@@ -9,6 +9,7 @@ import (
 	"encoding/json"
 	"fmt"
 	"go/types"
+	"strings"
 
 	"gopkg.in/yaml.v3"
 
@@ -25,6 +26,37 @@ func init() {
 		return json.Valid([]byte(fr.i.concStr(a[0])))
 	}
 	intrinsics["gopkg.in/yaml.v3.Unmarshal"] = inYAMLUnmarshal
+	// json.Decoder over a reader: the reader is drained into a native decoder
+	// once; every Decode takes the next value (trailing text is not an error)
+	intrinsics["encoding/json.NewDecoder"] = func(fr *frame, a []value) value {
+		res := inIoReadAll(fr, []value{a[0]}).(tuple)
+		doc := fr.i.concStr(fr.i.mkStr(fr.i.bytesToStr(res[0])))
+		var cell value = nativeObj{json.NewDecoder(strings.NewReader(doc))}
+		return &cell
+	}
+	intrinsics["(*encoding/json.Decoder).Decode"] = func(fr *frame, a []value) value {
+		i := fr.i
+		dec := (*a[0].(*value)).(nativeObj).v.(*json.Decoder)
+		target := a[1].(iface)
+		p, ok := target.v.(*value)
+		if !ok || p == nil {
+			return i.newError("json: Unmarshal(non-pointer)", iface{})
+		}
+		var out any
+		if err := dec.Decode(&out); err != nil {
+			return i.newError(err.Error(), iface{})
+		}
+		switch mustDeref(target.t).Underlying().(type) {
+		case *types.Interface:
+			*p = i.fromNativeAny(out, nil)
+		default:
+			if out == nil {
+				return iface{}
+			}
+			*p = i.fromNativeAny(out, nil).(iface).v
+		}
+		return iface{}
+	}
 }
 
 // jsonMayBeValid is a necessary condition for s to be a JSON document.
